@@ -159,6 +159,15 @@ func (w *Walker) Walk(
 
 	select {
 	case <-done:
+		// All routines have returned. An interrupt makes them return without recording a completion, and
+		// when that happens fast enough this arm is chosen although the context is done as well: report the
+		// interrupt, or the caller takes an empty completion map for a successful build.
+		w.doneMutex.Lock()
+		failFastTriggered := w.failFastTriggered
+		w.doneMutex.Unlock()
+		if err := ctx.Err(); err != nil && !failFastTriggered {
+			return w.completions, err
+		}
 		return w.completions, nil
 	case <-ctx.Done():
 		logger.Debugf(
